@@ -7,6 +7,7 @@ package main
 
 import (
 	"fmt"
+	"os"
 	"go/token"
 	"go/types"
 	"sort"
@@ -29,6 +30,8 @@ type frameCtx struct {
 	outSt   map[*ssa.BasicBlock]*State
 	edgeC   map[[2]int]*Term
 	loopOrd map[*ssa.BasicBlock]int
+	pkgPath string // for contexts without fn (package invariants, lemmas)
+	callArgs []TV  // at-call assertions: the actual arguments
 }
 
 type retInfo struct {
@@ -162,7 +165,9 @@ func (w *World) writeKeys(fn *ssa.Function) map[string]bool {
 	}
 	out := map[string]bool{}
 	w.wkCache[fn] = out // recursion guard
-	if fn.Blocks == nil {
+	if fn.Blocks == nil || !strings.HasPrefix(funcPkgPath(fn), modPath) {
+		// standard-library callees are assumed not to write memory visible to the library
+		// (pure / no retention: DESIGN §4.1); they are listed per call in the evidence
 		return out
 	}
 	if c := w.contractFor(fn); c != nil {
@@ -242,7 +247,24 @@ func (w *World) addrKeys(addr ssa.Value, out map[string]bool) {
 		keysForType(pt.Elem(), elemKey(pt.Elem()), out)
 	case *ssa.Alloc:
 		keysForType(pt.Elem(), cellKey(pt.Elem()), out)
+	case *ssa.Global:
+		keysForType(pt.Elem(), "G:"+shortPkg(a.Pkg.Pkg.Path())+"."+a.Name(), out)
+	case *ssa.FreeVar:
+		// captured local of the enclosing function: a cell
+		keysForType(pt.Elem(), cellKey(pt.Elem()), out)
+	case *ssa.Phi:
+		if out["!visiting:"+a.Name()] {
+			return
+		}
+		out["!visiting:"+a.Name()] = true
+		for _, e := range a.Edges {
+			w.addrKeys(e, out)
+		}
+		delete(out, "!visiting:"+a.Name())
 	default:
+		if os.Getenv("VC_DEBUG_WK") != "" {
+			fmt.Fprintf(os.Stderr, "unknown store address %s (%T) in %s\n", addr, addr, addr.Parent())
+		}
 		// store through a pointer of unknown origin: could be a cell, a field or an element
 		out["?ptr:"+typeName(pt.Elem())] = true
 		keysForType(pt.Elem(), cellKey(pt.Elem()), out)
